@@ -5,7 +5,9 @@
 //
 // op      : s <keepalives 0|1> <requests> <scripts>
 // requests: ';' separated   <G|H|P><0|1><n|c|k><n|e|u><y|o>:<body>   |  X4 (garbage line)  |  XU (over-long URI)  |  XH (over-long header)
-//           method, HTTP/1.<p>, Connection none/close/keep-alive, Expect none/100-continue/unknown, body sent yes / omitted
+//           method, HTTP/1.<p>, Connection none/close/keep-alive, Expect none/100-continue/unknown,
+//           body: y sent with the header (pipelined) / o omitted (next request pipelined) / w waiting client: nothing
+//           past the header is sent until the server answers; the body follows only after a 100 Continue
 //           body: -  |  L<n> (Content-Length n)  |  C<s1>_<s2>..[t] (chunked, t = with trailer)  |  B<s1>_.. (chunked, then an invalid size line)
 // scripts : ';' separated   <n|a|p<k>>:<x|f|r<status>.<flags c,k,l|->.<len>[.<split>]>     ("-" = none; default n:r200.l.2)
 // result  : <start:index of every request handed to the handler|-> <hex of bytes sent to the client, Date value replaced by D>
@@ -62,18 +64,19 @@ func parseSizes(s string) ([]int, bool) {
 	return out, true
 }
 
-func renderReq(i int, tok string) ([]byte, bool) {
+// renderReq returns the header block, the body bytes the client will send and whether it waits ('w').
+func renderReq(i int, tok string) (head []byte, bodyBytes []byte, waits bool, ok bool) {
 	switch tok {
 	case "X4":
-		return []byte("GARBAGE\r\n\r\n"), true
+		return []byte("GARBAGE\r\n\r\n"), nil, false, true
 	case "XU":
-		return []byte("GET /" + strings.Repeat("u", 200) + " HTTP/1.1\r\nHost: h\r\n\r\n"), true
+		return []byte("GET /" + strings.Repeat("u", 200) + " HTTP/1.1\r\nHost: h\r\n\r\n"), nil, false, true
 	case "XH":
-		return []byte(fmt.Sprintf("GET /%d HTTP/1.1\r\nHost: h\r\nX-Big: %s\r\n\r\n", i, strings.Repeat("h", 12000))), true
+		return []byte(fmt.Sprintf("GET /%d HTTP/1.1\r\nHost: h\r\nX-Big: %s\r\n\r\n", i, strings.Repeat("h", 12000))), nil, false, true
 	}
 	f := strings.Split(tok, ":")
 	if len(f) != 2 || len(f[0]) != 5 || f[1] == "" {
-		return nil, false
+		return nil, nil, false, false
 	}
 	var b strings.Builder
 	switch f[0][0] {
@@ -84,10 +87,10 @@ func renderReq(i int, tok string) ([]byte, bool) {
 	case 'P':
 		b.WriteString("POST")
 	default:
-		return nil, false
+		return nil, nil, false, false
 	}
 	if f[0][1] != '0' && f[0][1] != '1' {
-		return nil, false
+		return nil, nil, false, false
 	}
 	fmt.Fprintf(&b, " /%d HTTP/1.%c\r\nHost: h\r\n", i, f[0][1])
 	switch f[0][2] {
@@ -97,7 +100,7 @@ func renderReq(i int, tok string) ([]byte, bool) {
 	case 'k':
 		b.WriteString("Connection: keep-alive\r\n")
 	default:
-		return nil, false
+		return nil, nil, false, false
 	}
 	switch f[0][3] {
 	case 'n':
@@ -106,22 +109,23 @@ func renderReq(i int, tok string) ([]byte, bool) {
 	case 'u':
 		b.WriteString("Expect: x-unknown\r\n")
 	default:
-		return nil, false
+		return nil, nil, false, false
 	}
 	sent := f[0][4] == 'y'
-	if !sent && f[0][4] != 'o' {
-		return nil, false
+	waits = f[0][4] == 'w'
+	if !sent && !waits && f[0][4] != 'o' {
+		return nil, nil, false, false
 	}
 	var body strings.Builder
 	switch f[1][0] {
 	case '-':
 		if f[1] != "-" {
-			return nil, false
+			return nil, nil, false, false
 		}
 	case 'L':
 		n, ok := atoi(f[1][1:])
 		if !ok {
-			return nil, false
+			return nil, nil, false, false
 		}
 		fmt.Fprintf(&b, "Content-Length: %d\r\n", n)
 		body.WriteString(strings.Repeat("b", n))
@@ -134,7 +138,7 @@ func renderReq(i int, tok string) ([]byte, bool) {
 		}
 		sizes, ok := parseSizes(s)
 		if !ok {
-			return nil, false
+			return nil, nil, false, false
 		}
 		b.WriteString("Transfer-Encoding: chunked\r\n")
 		for _, n := range sizes {
@@ -150,13 +154,13 @@ func renderReq(i int, tok string) ([]byte, bool) {
 			body.WriteString("ZZ\r\n")
 		}
 	default:
-		return nil, false
+		return nil, nil, false, false
 	}
 	b.WriteString("\r\n")
-	if sent {
-		b.WriteString(body.String())
+	if sent || waits {
+		bodyBytes = []byte(body.String())
 	}
-	return []byte(b.String()), true
+	return []byte(b.String()), bodyBytes, waits, true
 }
 
 func parseScripts(s string) ([]script, bool) {
@@ -239,13 +243,27 @@ func exec(op string) string {
 	if len(f) != 4 || f[0] != "s" || (f[1] != "0" && f[1] != "1") {
 		return "bad-op"
 	}
-	var input []byte
+	var parts []bfe_server.VerifC28Part
+	var cur []byte
 	for i, tok := range strings.Split(f[2], ";") {
-		b, ok := renderReq(i, tok)
+		head, body, waits, ok := renderReq(i, tok)
 		if !ok {
 			return "bad-op"
 		}
-		input = append(input, b...)
+		cur = append(cur, head...)
+		if waits {
+			// the client stops after the header; the body is sent only after a 100 Continue
+			parts = append(parts, bfe_server.VerifC28Part{Data: cur})
+			cur = nil
+			if len(body) > 0 {
+				parts = append(parts, bfe_server.VerifC28Part{Data: body, Need100: true})
+			}
+		} else {
+			cur = append(cur, body...)
+		}
+	}
+	if len(cur) > 0 {
+		parts = append(parts, bfe_server.VerifC28Part{Data: cur})
 	}
 	scripts, ok := parseScripts(f[3])
 	if !ok {
@@ -296,7 +314,7 @@ func exec(op string) string {
 		res.Body = cb
 		return bfe_server.VerifC28Response, res
 	}
-	out, _ := bfe_server.VerifC28Serve(input, f[1] == "1", maxHeaderBytes, maxUriBytes, h)
+	out, _ := bfe_server.VerifC28ServeParts(parts, f[1] == "1", maxHeaderBytes, maxUriBytes, h)
 	out = dateRe.ReplaceAll(out, []byte("\r\nDate: D\r\n"))
 	st := "-"
 	if len(starts) > 0 {
@@ -364,8 +382,13 @@ func genReq(r *vh.Rand, last bool) string {
 	e, s := "n", "y"
 	if body != "-" && r.Chance(1, 5) {
 		e = "e"
-		if p == "1" && r.Chance(2, 5) {
-			s = "o"
+		if p == "1" {
+			switch r.Intn(10) {
+			case 0, 1, 2:
+				s = "o"
+			case 3, 4, 5, 6:
+				s = "w"
+			}
 		}
 	} else if r.Chance(1, 60) {
 		e = "u"
@@ -430,7 +453,7 @@ func gen(r *vh.Rand) string {
 		reqs = append(reqs, genReq(r, i == n-1))
 	}
 	for i, k := 0, r.Range(0, n); i < k; i++ {
-		scs = append(scs, genScript(r, strings.Contains(reqs[i], "o:")))
+		scs = append(scs, genScript(r, strings.Contains(reqs[i], "o:") || (strings.Contains(reqs[i], "w:") && r.Chance(1, 2))))
 	}
 	sc := "-"
 	if len(scs) > 0 {
